@@ -251,7 +251,13 @@ def num_same(real, model, exact):
     if model == 'z':
         return real == 0.0 and (not exact or math.copysign(1, real) < 0)
     if exact:
-        return real == model.numerator / model.denominator and not (real == 0 and math.copysign(1, real) < 0)
+        try:
+            nearest = model.numerator / model.denominator
+        except OverflowError:                                  # beyond the double range: float() gives +-inf
+            nearest = math.inf if model > 0 else -math.inf
+        return real == nearest and not (real == 0 and math.copysign(1, real) < 0)
+    if math.isinf(real):
+        return abs(model) > Fraction(10) ** 308
     return abs(Fraction(real) - model) <= Fraction(1, 10 ** 9) * max(abs(model), Fraction(1, 100))
 
 
@@ -313,6 +319,12 @@ def fr(x):
     return float(x)
 
 
+# zero, negative zero and values that the file's two (one) decimals turn into 0.00 / -0.00 (0.0 / -0.0):
+# every optional numeric field of every record gets them, so that a truthiness slip on any field shows up
+ZEROISH2 = [0.0, -0.0, 0.004, -0.004, 0.0049, -0.001, 0.005, -0.005]
+ZEROISH1 = [0.0, -0.0, 0.04, -0.04, 0.049, -0.01, 0.05]
+
+
 def gen_spacings(rng, n, style):
     if style == 'dyadic': return [rng.randint(1, 4000) / 16.0 for _ in range(n)]
     if style == 'decimal2': return [rng.randint(1, 300000) / 100.0 for _ in range(n)]
@@ -325,13 +337,15 @@ def gen_spacings(rng, n, style):
 
 def gen_origin(rng):
     s = rng.random()
-    if s < 0.25: xy = [0.0, 0.0]
+    if s < 0.12: xy = [0.0, 0.0]
+    elif s < 0.25: xy = [rng.choice(ZEROISH2), rng.choice(ZEROISH2)]
     elif s < 0.45: xy = [rng.uniform(-500, 500), rng.uniform(-500, 500)]
     elif s < 0.65: xy = [2.77e6 + rng.uniform(0, 9000), 6.28e6 + rng.uniform(0, 9000)]
     elif s < 0.8: xy = [rng.choice([9.9e6, 9.97e6, 9.99e6]), rng.choice([-9.5e5, -9.8e5, -9.9e5])]
     else: xy = [rng.randint(-100000, 100000) / 16.0, rng.randint(-100000, 100000) / 100.0]
     t = rng.random()
-    if t < 0.3: z = 0.0
+    if t < 0.2: z = 0.0
+    elif t < 0.3: z = rng.choice(ZEROISH2)
     elif t < 0.45: z = rng.choice([1.006, 1.004, -0.001, 0.004, 10.0, -0.004])
     elif t < 0.7: z = rng.randint(-40000, 40000) / 16.0
     else: z = rng.uniform(-3000, 3000)
@@ -372,9 +386,16 @@ def gen_recipe(rng, quick, index):
     t = rng.random()
     if t < 0.25: rc['rotate'] = rng.choice([30.0, 45.0, 90.0, 17.3, -60.0, 180.0])
     if rng.random() < 0.2: rc['translate'] = [rng.uniform(-1000, 1000), rng.randint(-16000, 16000) / 16.0, rng.choice([0.0, 12.5, -3.17])]
-    rc['perm_angle'] = rng.choice([None, 0.0, 45.0, 30.0, 12.345, -7.5])
-    rc['atm_volume'] = rng.choice([None, None, 1.0e25, 1.234e20, 9.996e29, 5.0e3])
-    rc['atm_conn'] = rng.choice([None, None, 1.0e-6, 2.5e-3, 9.995e-7])
+    rc['perm_angle'] = rng.choice([None, 0.0, 45.0, 30.0, 12.345, -7.5, -0.0, 0.004, -0.004])
+    rc['atm_volume'] = rng.choice([None, None, 1.0e25, 1.234e20, 9.996e29, 5.0e3, 0.0])
+    rc['atm_conn'] = rng.choice([None, None, 1.0e-6, 2.5e-3, 9.995e-7, 0.0, -0.0])
+    rc['gdc'] = rng.choice([None, None, None, [0.0, 0.0], [0.1, None], [None, -0.004], [-0.0, 0.25], [0.004, 0.5]])
+    rc['cntype'] = rng.choice([None, None, 0])
+    if rc['base'] == 'rect' and rng.random() < 0.25:
+        # a layer bottom exactly at (or within the rounding of) zero
+        k = rng.randrange(len(rc['zs']))
+        rc['zs'][k] = rc['origin'][2] - sum(rc['zs'][:k]) + rng.choice([0.0, 0.0, 0.004, -0.004])
+        if rc['zs'][k] <= 0.02: rc['zs'][k] = 1.0
     # surfaces: fraction of the columns, seed for which and what
     rc['surf'] = [rng.choice([0.0, 0.0, 0.3, 0.6, 1.0]), rng.randint(0, 10 ** 6)]
     rc['centres'] = [rng.choice([0.0, 0.0, 0.5, 1.0]), rng.randint(0, 10 ** 6)]
@@ -417,6 +438,8 @@ def build(rc):
         if rc.get('perm_angle') is not None: g.permeability_angle = rc['perm_angle']
         if rc.get('atm_volume') is not None: g.atmosphere_volume = rc['atm_volume']
         if rc.get('atm_conn') is not None: g.atmosphere_connection = rc['atm_conn']
+        if rc.get('gdc') is not None: g.gdcx, g.gdcy = rc['gdc']
+        if rc.get('cntype') is not None: g.cntype = rc['cntype']
         # surfaces
         frac, seed = rc['surf']
         r2 = random.Random(seed)
@@ -426,7 +449,8 @@ def build(rc):
             for c in g.columnlist:
                 if r2.random() < frac:
                     t = r2.random()
-                    if t < 0.5: z = r2.uniform(lo - 5.0, hi + 5.0)
+                    if t < 0.12: z = r2.choice(ZEROISH2)
+                    elif t < 0.5: z = r2.uniform(lo - 5.0, hi + 5.0)
                     elif t < 0.7: z = r2.choice(bottoms)                                  # exactly on a layer boundary
                     elif t < 0.85: z = r2.choice(bottoms) + r2.choice([-0.004, 0.004, 0.006, -0.006, 0.01, -0.01])
                     else: z = round(r2.uniform(lo, hi), 2)
@@ -439,6 +463,10 @@ def build(rc):
             for c in g.columnlist:
                 if c.num_nodes > 0 and r2.random() < frac:
                     c.centre = np.array(c.centre) + np.array([r2.uniform(-1, 1), r2.choice([0.0, 0.125, -0.004])])
+                    t = r2.random()
+                    if t < 0.15: c.centre[0] = r2.choice(ZEROISH2)
+                    elif t < 0.3: c.centre[1] = r2.choice(ZEROISH2)
+                    elif t < 0.4: c.centre = np.array([r2.choice(ZEROISH2), r2.choice(ZEROISH2)])
                     c.centre_specified = 1
         # wells
         nw, seed, short = rc['wells']
@@ -454,7 +482,9 @@ def build(rc):
                 pos = []
                 x, y, z = r2.uniform(min(xs), max(xs)), r2.uniform(min(ys), max(ys)), max(zs) + r2.choice([0.0, 1.5, 20.0])
                 for _ in range(npos):
-                    pos.append(np.array([x, y, z]))
+                    p = np.array([x, y, z])
+                    if r2.random() < 0.2: p[r2.randrange(3)] = r2.choice(ZEROISH1)
+                    pos.append(p)
                     x += r2.uniform(-50, 50); y += r2.choice([0.0, r2.uniform(-50, 50)]); z -= r2.uniform(0.5, 300)
                 g.add_well(m.well(name, pos))
         g.setup_block_name_index()
@@ -720,6 +750,13 @@ CORPUS = [
          spaces=True, atm=2, block_order=None, unit='FEET ', perm_angle=30.0, atm_volume=None, atm_conn=None, surf=[0.6, 5], centres=[0.5, 7], wells=[2, 3, False]),
     dict(base='rect', style='fixed', xs=[0.25, 0.5], ys=[1.0], zs=[0.25, 0.25], origin=[-0.125, 9999990.0, -0.001], conv=3, justify='r', case='u',
          spaces=True, atm=1, block_order='dmplex', unit='', rotate=90.0, perm_angle=None, atm_volume=None, atm_conn=None, surf=[1.0, 5], centres=[0.0, 7], wells=[1, 3, False]),
+    # zero / negative zero / sub-rounding values in every optional numeric field (truthiness slips)
+    dict(base='rect', style='fixed', xs=[10.0, 10.0], ys=[10.0], zs=[5.0, 5.0], origin=[0.0, -0.004, 5.0], conv=0, justify='r', case=None,
+         spaces=True, atm=1, block_order='layer_column', unit='', perm_angle=-0.004, atm_volume=0.0, atm_conn=-0.0, gdc=[0.0, -0.0], cntype=0,
+         surf=[1.0, 11], centres=[1.0, 5], wells=[2, 7, False]),
+    dict(base='rect', style='fixed', xs=[10.0, 10.0], ys=[10.0], zs=[5.0, 5.0], origin=[-0.0, 0.0049, 5.0], conv=2, justify='r', case='u',
+         spaces=True, atm=0, block_order=None, unit='FEET ', perm_angle=0.0, atm_volume=None, atm_conn=0.0, gdc=[0.004, None], cntype=None,
+         surf=[1.0, 12], centres=[1.0, 6], wells=[3, 8, False]),
 ] + [dict(base='shipped', file=f, atm=None, block_order=None, unit='', perm_angle=None, atm_volume=None, atm_conn=None,
           surf=[0.0, 0], centres=[0.0, 0], wells=[0, 0, False]) for f in ('g5', 'g6', 'g7', 'g1', 'g3')]
 CORPUS_THOROUGH = [dict(base='shipped', file=f, atm=None, block_order=None, unit=u, perm_angle=None, atm_volume=None, atm_conn=None,
@@ -767,6 +804,17 @@ def classify(res, rc, g):
     if any(c.num_nodes == 3 for c in g.columnlist): res.count('triangle_columns')
     up = all(c.name == c.name.upper() for c in g.columnlist)
     res.count('case:%s' % ('upper/digits' if up else 'lower'))
+    def zeroish(v, tol): return v is not None and abs(v) < tol
+    if any(zeroish(x, 0.00501) for n in g.nodelist for x in n.pos): res.count('zeroish:node coordinate')
+    if any(c.centre_specified and any(zeroish(x, 0.00501) for x in c.centre) for c in g.columnlist): res.count('zeroish:specified centre')
+    if any(zeroish(l.bottom, 0.00501) for l in g.layerlist): res.count('zeroish:layer bottom')
+    if any(zeroish(l.centre, 0.00501) for l in g.layerlist): res.count('zeroish:layer centre')
+    if any((not c.default_surface) and zeroish(c.surface, 0.00501) for c in g.columnlist): res.count('zeroish:surface')
+    if any(zeroish(x, 0.0501) for w in g.welllist for p in w.pos for x in p): res.count('zeroish:well track point')
+    if zeroish(g.permeability_angle, 0.00501) and rc.get('perm_angle') is not None: res.count('zeroish:permeability angle (set)')
+    if g.atmosphere_volume == 0 or g.atmosphere_connection == 0: res.count('zeroish:atmosphere volume/connection')
+    if g.gdcx is not None or g.gdcy is not None: res.count('gdcx/gdcy set' + (' (zeroish)' if zeroish(g.gdcx, 0.00501) or zeroish(g.gdcy, 0.00501) else ''))
+    if g.cntype is not None: res.count('cntype set')
     if rc.get('rotate') is not None: res.count('rotated')
     if rc.get('translate') is not None: res.count('translated')
     big = max([abs(x) for n in g.nodelist for x in n.pos] or [0])
